@@ -122,22 +122,64 @@ pub fn owned_input(input: &[u8]) -> Vec<u8> {
     }
 }
 
+/// The four option setters of `QRBuilder` are called in an ORDER chosen by a hash of (content, options) — a caller may
+/// pin the version before choosing the level, or force the mask first —, and every other case first calls the setter
+/// with a DIFFERENT value that the final call overrides (last value wins; no build in between). Both are functions of
+/// the case, so a case replays identically.
+pub fn apply_options(b: &mut QRBuilder, input_hash: u32, o: Opts) {
+    apply_options_x(b, input_hash, o, true)
+}
+pub fn apply_options_x(b: &mut QRBuilder, input_hash: u32, o: Opts, allow_earlier: bool) {
+    let h = input_hash
+        .wrapping_mul(2654435761)
+        .wrapping_add((o.ecl.unwrap_or(7) * 5 + o.mode.unwrap_or(3) * 41 + o.version.unwrap_or(47) * 173 + o.mask.unwrap_or(9) * 7) as u32);
+    let mut order = [0usize, 1, 2, 3];
+    let mut k = (h >> 3) as usize;
+    for i in (1..4).rev() {
+        order.swap(i, k % (i + 1));
+        k /= i + 1;
+    }
+    let earlier = allow_earlier && (h >> 11) % 2 == 0;
+    for pass in 0..2 {
+        if pass == 0 && !earlier {
+            continue;
+        }
+        for &which in &order {
+            match which {
+                0 => {
+                    if let Some(e) = o.ecl {
+                        b.ecl(ecl_of(if pass == 0 { (e + 1 + (h as usize >> 13) % 3) % 4 } else { e }));
+                    }
+                }
+                1 => {
+                    if let Some(m) = o.mode {
+                        b.mode(mode_of(if pass == 0 { (m + 1 + (h as usize >> 15) % 2) % 3 } else { m }));
+                    }
+                }
+                2 => {
+                    if let Some(v) = o.version {
+                        b.version(version_of(if pass == 0 { (v + 1 + (h as usize >> 17) % 39) % 40 } else { v }));
+                    }
+                }
+                _ => {
+                    if let Some(m) = o.mask {
+                        b.mask(mask_of(if pass == 0 { (m + 1 + (h as usize >> 19) % 7) % 8 } else { m }));
+                    }
+                }
+            }
+        }
+    }
+}
+pub fn content_hash(input: &[u8]) -> u32 {
+    input.iter().fold(input.len() as u32 ^ 0x9e37, |a, &b| a.wrapping_mul(16777619) ^ u32::from(b))
+}
+
 pub fn build(input: &[u8], o: Opts) -> Outcome {
+    let hh = content_hash(input);
     let input = owned_input(input);
     let r = std::panic::catch_unwind(move || {
         let mut b = QRBuilder::new(input);
-        if let Some(e) = o.ecl {
-            b.ecl(ecl_of(e));
-        }
-        if let Some(m) = o.mode {
-            b.mode(mode_of(m));
-        }
-        if let Some(v) = o.version {
-            b.version(version_of(v));
-        }
-        if let Some(m) = o.mask {
-            b.mask(mask_of(m));
-        }
+        apply_options(&mut b, hh, o);
         b.build()
     });
     match r {
@@ -244,4 +286,58 @@ pub fn outcome_short(o: &Outcome) -> String {
         Outcome::ErrSpecifiedVersion => "err S".into(),
         Outcome::Trap(_) => "trap".into(),
     }
+}
+
+/// A HISTORY on ONE builder, as a program that searches for a configuration does it ("raise the version until it fits",
+/// "strongest level that fits this label size", "try byte mode first"): for every step the setters whose value CHANGES are
+/// called (in the hash order of `apply_options`) and a build is made and discarded — it may well return an error —, then
+/// the final options are set the same way and that build is observed. A setter cannot be undone, so an option that a step
+/// sets stays set.
+pub fn build_history(input: &[u8], steps: &[Opts], o: Opts) -> Outcome {
+    let hh = content_hash(input);
+    let input = owned_input(input);
+    let steps = steps.to_vec();
+    let r = std::panic::catch_unwind(move || {
+        let mut b = QRBuilder::new(input);
+        let mut cur = Opts::default();
+        for st in steps.iter() {
+            let delta = Opts {
+                ecl: if st.ecl != cur.ecl { st.ecl } else { None },
+                mode: if st.mode != cur.mode { st.mode } else { None },
+                version: if st.version != cur.version { st.version } else { None },
+                mask: if st.mask != cur.mask { st.mask } else { None },
+            };
+            apply_options_x(&mut b, hh, delta, false);
+            cur = Opts { ecl: st.ecl.or(cur.ecl), mode: st.mode.or(cur.mode), version: st.version.or(cur.version), mask: st.mask.or(cur.mask) };
+            let _ = std::panic::catch_unwind(std::panic::AssertUnwindSafe(|| b.build().is_ok()));
+        }
+        let delta = Opts {
+            ecl: if o.ecl != cur.ecl { o.ecl } else { None },
+            mode: if o.mode != cur.mode { o.mode } else { None },
+            version: if o.version != cur.version { o.version } else { None },
+            mask: if o.mask != cur.mask { o.mask } else { None },
+        };
+        apply_options_x(&mut b, hh, delta, false);
+        b.build()
+    });
+    match r {
+        Ok(Ok(q)) => match std::panic::catch_unwind(move || through_copies(q)) {
+            Ok(q) => Outcome::Ok(Box::new(q)),
+            Err(e) => Outcome::Trap(format!("copying-the-returned-QRCode-panicked {}", panic_msg(e))),
+        },
+        Ok(Err(fast_qr::qr::QRCodeError::EncodedData)) => Outcome::ErrEncodedData,
+        Ok(Err(fast_qr::qr::QRCodeError::SpecifiedVersion)) => Outcome::ErrSpecifiedVersion,
+        Err(e) => Outcome::Trap(panic_msg(e)),
+    }
+}
+pub fn opts_tok(o: &Opts) -> String {
+    format!("{}.{}.{}.{}", opt(o.ecl), opt(o.mode), opt(o.version), opt(o.mask))
+}
+pub fn opts_parse(s: &str) -> Option<Opts> {
+    let p: Vec<&str> = s.split('.').collect();
+    if p.len() != 4 {
+        return None;
+    }
+    let on = |x: &str| -> Option<usize> { if x == "-" { None } else { x.parse().ok() } };
+    Some(Opts { ecl: on(p[0]), mode: on(p[1]), version: on(p[2]), mask: on(p[3]) })
 }
